@@ -319,7 +319,13 @@ func (x *Extractor) install() {
 				}
 				chans = append(chans, x.chanRef(fr.get(st.Chan)))
 			}
-			ev := x.rec(ps, CEvent{Kind: "sel", Chans: chans, Decision: true, Site: x.siteOf() + ":select"})
+			watch := "nothing"
+			for _, ch := range chans {
+				if ch.Kind == "done" {
+					watch = ch.ID + "-ctx"
+				}
+			}
+			ev := x.rec(ps, CEvent{Kind: "sel", Chans: chans, Decision: true, Site: x.siteOf() + ":select-watching-" + watch})
 			c := ps.Choice(len(chans), "sel")
 			ev.Choice = c
 			x.cur.lastSel = ev
